@@ -441,7 +441,11 @@ def main(tier):
                 V.count('drift_' + clause)       # model-tagged clauses: search log, message wording, program shape
     time_clause(V, tier)
     depth_clause(V, tier)
-    cov = {'states': stats['states'], 'transitions': stats['transitions'],
+    from checks import c06_regex
+    rres = c06_regex.run(V, tier)
+    stats['states'] += rres.distinct
+    stats['transitions'] += rres.generated
+    cov = {'states': stats['states'], 'transitions': stats['transitions'], 'regular_expressions': V.notes.get('regex'),
            'traces_validated_against_impl': V.counters.get('behaviours_conform', 0),
            'sources': len(cases), 'drift_on_soups': drift, 'outcomes_of_the_code': outcomes,
            'exhaustive': True, 'actions_covered': stats['coverage'], 'timing': V.notes.get('timing'),
@@ -452,7 +456,8 @@ def main(tier):
            'samples': [{'syn': cases[i]['syn'], 'source': cases[i]['src']} for i in (7, len(cases) // 3, len(cases) // 2, len(cases) - 5)]}
     return V.finish(cov, assumptions=[
         'Python\'s own parser (ast.parse) decides which expression texts are invalid (passed to the machine as data)',
-        'CPU time of cook() is measured, not modelled: cubic envelope with a re-measurement before reporting',
+        'CPU time of cook() is measured, not modelled: cubic envelope with a re-measurement before reporting; the inputs measured are fixed pump '
+        'families plus the witnesses (prefix, pump) of every exponentially ambiguous loop TLC finds in the automata of the patterns the package compiles (DTRegexAmb)',
         'TreeDisplay is imported, so dtml-tree is a known block tag'])
 
 
